@@ -7,6 +7,7 @@ mod c01;
 mod c02;
 mod c05;
 mod c06;
+mod c07;
 mod search;
 mod prog;
 mod tree;
@@ -41,6 +42,7 @@ fn main() {
                 "C02" => c02::run(seed, thorough, &mut out),
                 "C05" => c05::run(seed, thorough, &mut out),
                 "C06" => c06::run(seed, thorough, &mut out),
+                "C07" => c07::run(seed, thorough, &mut out),
                 _ => {
                     eprintln!("unknown property {}", prop);
                     std::process::exit(2);
@@ -65,6 +67,7 @@ fn main() {
                     "C02" => c02::replay(line, &mut out),
                     "C05" => c05::replay(line, &mut out),
                     "C06" => c06::replay(line, &mut out),
+                    "C07" => c07::replay(line, &mut out),
                     _ => {
                         eprintln!("unknown property {}", prop);
                         std::process::exit(2);
